@@ -68,6 +68,22 @@ func extractC14() {
 		}
 		return "?" + src(e)
 	}
+	// the group NewStack hands back first is "the stack": its name is taken from the last return
+	// statement (or, for a bare return, from the first named result), not assumed to be `outer`
+	outerName := "outer"
+	if ns != nil {
+		if ns.Type.Results != nil && len(ns.Type.Results.List) > 0 && len(ns.Type.Results.List[0].Names) > 0 {
+			outerName = ns.Type.Results.List[0].Names[0].Name
+		}
+		ast.Inspect(ns.Body, func(x ast.Node) bool {
+			if rs, ok := x.(*ast.ReturnStmt); ok && len(rs.Results) > 0 {
+				if id, ok := rs.Results[0].(*ast.Ident); ok {
+					outerName = id.Name
+				}
+			}
+			return true
+		})
+	}
 	if ns != nil {
 		ast.Inspect(ns.Body, func(x ast.Node) bool {
 			switch s := x.(type) {
@@ -88,11 +104,19 @@ func extractC14() {
 				if !ok {
 					return true
 				}
-				if sel.Sel.Name == "SetAggregateErrors" {
-					aggregate = true
-				}
-				if recv.Name != "outer" {
+				if recv.Name != outerName {
 					return true
+				}
+				// outer.SetAggregateErrors(<literal>): the last call wins, as at run time; anything but a
+				// literal true/false is reported as false plus a marker in requestOrder (the model then
+				// runs Err.unknown and every stack theorem stops checking).
+				if sel.Sel.Name == "SetAggregateErrors" {
+					if id, ok := s.Args[0].(*ast.Ident); ok && (id.Name == "true" || id.Name == "false") {
+						aggregate = id.Name == "true"
+					} else {
+						aggregate = false
+						reqOrder = append(reqOrder, "?SetAggregateErrors-non-literal:"+src(s.Args[0]))
+					}
 				}
 				switch sel.Sel.Name {
 				case "AddRequestModifier":
